@@ -682,7 +682,13 @@ pub fn gen_c06(r: &mut Rng, id: usize) -> Group {
     let regions = at.len();
     let spec = {
         let mut s = Spec::default();
-        match r.below(9) {
+        match r.below(11) {
+            // values the options make jawk skip are not errors: no report for them, under any policy
+            9 => s.ooa = true,
+            10 => {
+                s.ooa = true;
+                s.selects.push("(size .)=n".into());
+            }
             // the ordinal of a value counts VALUES: malformed regions in front of it do not move it
             6 => {
                 s.selects.push("&index=i".into());
@@ -2266,7 +2272,7 @@ pub fn gen_c18(r: &mut Rng, id: usize) -> Group {
             kind = format!("sort:{k}");
         }
         3 => {
-            c.spec.sorts.push(format!(".k {}", r.ps(&["up", "descending", "a s c", "1", "DESK"])));
+            c.spec.sorts.push(format!(".k {}", r.ps(&["up", "descending", "a s c", "1", "DESK", "DESC garbage", "asc )", "desc .b", "ASC DESC", "Desc  x", "asc\tasc"])));
             kind = "sort:bad-direction".into();
         }
         4 => {
@@ -2627,6 +2633,14 @@ pub fn gen_c20(r: &mut Rng, id: usize) -> Group {
                 c.spec.sorts.push(". DESC".into());
                 c.spec.take = Some(r.range(1, 3) as u64);
             }
+        }
+    }
+    // rows that do NOT end with a line feed (another row separator, text output): the standard output of a process is line
+    // buffered, so what such a run writes is still in the buffer when it ends — a failing standard output must be reported then too
+    if r.chance(15) && c.spec.group.is_none() {
+        c.spec.rowsep = Some(r.ps(&[",", " ", ";\t", "|", ""]).to_string());
+        if r.chance(40) && !c.spec.selects.is_empty() {
+            c.spec.style = Some("text".into());
         }
     }
     // closed / full stdout
